@@ -3,7 +3,7 @@ the comparator clause C06.e."""
 import os
 import re
 
-from .facts import (Facts, AnalysisBroken, walk_expr, walk_all_exprs, walk_stmts, show, strip_casts, strip_copies,
+from .facts import (Facts, AnalysisBroken, VERIF, walk_expr, walk_all_exprs, walk_stmts, show, strip_casts, strip_copies,
                     member_path, strip_conv)
 from .genrules import GenModel, is_call, field_chain, direct_exprs, guard_implies
 from .props_c02 import Multi
@@ -649,7 +649,20 @@ def c10(rep, tier):
     A.check(not why, 'get_replacement: temporary name', 'f(cand.text, pass, per-definition values, literals)', '; '.join(why), W(gr, text_e, mm.facts),
             witness={'input': 'DEFINE foo AS #1 := 5; include "b"\\nEND DEFINE\\nfoo   with file b = x0 := #1',
                      'effect': 'two variables for one #1'} if extra else None)
-    B.check(any(re.search(r'[^A-Za-z0-9_]', s) for s in lits), 'get_replacement: unnameable', 'literal part %s' % [s for s in lits if re.search(r'[^A-Za-z0-9_]', s)][:2],
+    # the whole name may pass through an in-repo helper before it is stored: if everything that helper can append is an identifier
+    # character, the marker characters do not survive
+    sanitiser = None
+    top = strip_casts(strip_copies(text_e))
+    if top is not None and top.get('k') == 'call' and top.get('callee_in_repo') and top.get('obj') is None and top.get('ck') != 'operator':
+        hh = mm.facts.fn(top.get('callee'), optional=True)
+        if hh is not None and hh.get('body') is not None and identifier_only_result(mm, hh):
+            sanitiser = hh
+    if sanitiser is not None:
+        B.violation('get_replacement: unnameable', 'the name is passed through %s(), which builds its result from identifier characters only (everything it appends is a letter, digit or '
+                    '\'_\'): the characters that no user identifier can contain are replaced, and a user variable spelled like the result is captured' % sanitiser['q'].split('::')[-1],
+                    W(gr, text_e, mm.facts), witness={'input': 'a user variable named like the sanitised temporary, e.g. __0_main_theo_3__M0_'})
+    else:
+      B.check(any(re.search(r'[^A-Za-z0-9_]', s) for s in lits), 'get_replacement: unnameable', 'literal part %s' % [s for s in lits if re.search(r'[^A-Za-z0-9_]', s)][:2],
             'the new name consists of identifier characters only: a user variable can collide', W(gr, text_e, mm.facts))
     Cc.check(kind_ok, 'get_replacement: kind', 'next.t = ID', 'the renamed token keeps kind TEMP_VAL', W(gr, None, mm.facts))
     calls = [e for e in walk_all_exprs(mm.am['body']) if is_call(e, 'get_replacement')]
@@ -1337,6 +1350,7 @@ def c12(rep, tier):
     am = mm.am
     A = rep.rule('C12.a', 'a detector reports MACRO_COMPILE_NON_LR at its first pattern token exactly when table generation reported a conflict', floor=1)
     non_lr_error_rule(mm, rep, A)
+    pattern_verdicts_rule(rep, mm, tier)
     G2 = rep.rule('C12.g', 'on every path through the detector\'s constructor the conflict list is the result of generating the tables of the parser '
                            'the detector then uses (no path installs a parser without its verdict)', floor=1)
     ctor = mm.facts.fn('MacroDetector::MacroDetector')
@@ -2055,6 +2069,132 @@ def c06e(rep, tier):
             E.violation('operator<(BreakPoint)', 'the order does not discriminate distinct locations: %s' % ex, W(f, None, kf))
         except cmpeval.Unsupported as ex:
             E.unknown('operator<(BreakPoint)', str(ex))
+
+
+def identifier_only_result(mm, h):
+    """h returns a std::string local that is built from a literal and `+=` of pieces each of which is provably an identifier
+    character: a literal of identifier characters, or `C ? c : lit` / `c` under `if (C)` where C is isalnum/isalpha/isdigit(c)
+    (optionally || c == '_')"""
+    rets = [st for st in walk_stmts(h['body']) if st['k'] == 'return' and st.get('e') is not None]
+    if len(rets) != 1:
+        return False
+    rv = strip_casts(strip_copies(rets[0]['e']))
+    if rv is None or rv.get('k') != 'ref' or rv.get('dk') != 'var':
+        return False
+    ds = mm.M.defs(h).get(rv['d'], [])
+    idre = re.compile(r'^[A-Za-z0-9_]*$')
+
+    def lit_ok(x):
+        x = strip_conv(x)
+        if x is None:
+            return False
+        if x.get('k') == 'str':
+            return bool(idre.match(x['v']))
+        if x.get('k') == 'char':
+            v = x.get('v')
+            ch = chr(v) if isinstance(v, int) else str(v)
+            return bool(idre.match(ch))
+        return False
+
+    def class_test(c, var_d):
+        c = strip_casts(c)
+        if c is None:
+            return False
+        if c.get('k') == 'paren':
+            return class_test(c['e'], var_d)
+        if c.get('k') == 'bin' and c['op'] == '||':
+            return class_test(c['l'], var_d) and class_test(c['r'], var_d)
+        if c.get('k') == 'call' and (c.get('callee') or '').split('::')[-1] in ('isalnum', 'isalpha', 'isdigit', 'isupper', 'islower') and c.get('args'):
+            return any(y.get('k') == 'ref' and y.get('d') == var_d for y in walk_expr(c['args'][0]))
+        if c.get('k') == 'bin' and c['op'] == '==':
+            l, r = strip_casts(c['l']), strip_casts(c['r'])
+            return (l.get('d') == var_d and lit_ok(r)) or (r.get('d') == var_d and lit_ok(l))
+        return False
+
+    def piece_ok(x, guards):
+        x0 = strip_conv(x)
+        if lit_ok(x0):
+            return True
+        if x0 is not None and x0.get('k') == 'cond':
+            t, e = strip_conv(x0['t']), strip_conv(x0.get('f') or x0.get('e'))
+            if t is not None and t.get('k') == 'ref' and class_test(x0['c'], t.get('d')) and lit_ok(e):
+                return True
+            return piece_ok(x0['t'], guards) and piece_ok(x0.get('f') or x0.get('e'), guards)
+        if x0 is not None and x0.get('k') == 'ref':
+            return any(lab is True and class_test(c, x0.get('d')) for c, lab in guards)
+        return False
+    g = mm.M.cfg(h)
+    for kind, rhs, node in ds:
+        if kind == 'init':
+            if rhs is not None and not lit_ok(rhs) and not (strip_conv(rhs) or {}).get('k') == 'construct':
+                return False
+        elif kind == 'compound' and (node.get('callee') or '').endswith('operator+='):
+            guards = [(c, lab) for c, lab, cn in g.guards_of(g.ev(node))] if node.get('sid') in g.by_sid else []
+            if not piece_ok(node['args'][0], guards):
+                return False
+        else:
+            return False
+    return any(kind == 'compound' for kind, _, _ in ds)
+
+
+# ============================================================================= pattern verdicts (C12.k)
+def pattern_verdicts_rule(rep, mm, tier):
+    """Which patterns get a conflict depends on the shape of the slot grammar, not only on its language (a right-recursive list
+    rule rejects `<ARGS> , x`).  The grammar built by MacroDetector's constructor is read from the source and, for every
+    pattern up to a bound over the five slot kinds and a set of literal tokens, the conflict verdict of the table generator's
+    criterion under that grammar is compared with the verdict under the reference slot grammar."""
+    import itertools
+    import json as _json
+    from .lr1 import has_conflict
+    K = rep.rule('C12.k', 'for every pattern up to the bound the detector grammar gives the same verdict (conflict / no conflict) as the reference slot grammar: '
+                          'deterministic patterns are accepted, ambiguous ones rejected', floor=1)
+    try:
+        cur = detector_grammar(mm)
+    except AnalysisBroken as ex:
+        K.unknown('detector grammar', str(ex))
+        return
+    ref = _json.load(open(os.path.join(VERIF, 'spec', 'detector_grammar.json')))['productions']
+    slots = ['<ID>', '<INT>', '<VALUE>', '<ARGS>', '<P>']
+    missing = [s_ for s_ in slots if s_ not in cur]
+    if missing:
+        K.unknown('detector grammar', 'no productions found for slot kind(s) %s' % missing)
+        return
+    terms = sorted(set(x for g_ in (cur, ref) for alts in g_.values() for alt in alts for x in alt if x not in cur and x not in ref))
+    lits = [t for t in ('ID', 'INT', 'ARGSEP', 'PROGSEP', 'ASSIGN', 'END', 'DO', 'LOOP', 'LABELDEC', 'RUN') if t in terms] + ['OUT']
+    alphabet = slots + lits
+    bound = 3 if tier == 'quick' else 4
+    n = 0
+    rejected_but_ok, accepted_but_ambiguous = [], []
+    nconf = 0
+    where = W(mm.facts.fn('MacroDetector::MacroDetector'), None, mm.facts)
+    try:
+        for L in range(1, bound + 1):
+            for pat in itertools.product(alphabet, repeat=L):
+                n += 1
+                c1 = has_conflict(cur, pat)[0]
+                c2 = has_conflict(ref, pat)[0]
+                nconf += 1 if c2 else 0
+                if c1 and not c2 and len(rejected_but_ok) < 3:
+                    rejected_but_ok.append(pat)
+                if c2 and not c1 and len(accepted_but_ambiguous) < 3:
+                    accepted_but_ambiguous.append(pat)
+    except RuntimeError as ex:
+        K.unknown('pattern verdicts', 'LR(1) construction too large: %s' % ex)
+        return
+
+    def spell(pat):
+        names = {'ARGSEP': "','", 'PROGSEP': "';'", 'ASSIGN': "':='", 'LABELDEC': "':'", 'ID': 'name', 'INT': '7', 'OUT': 'OUT'}
+        return ' '.join(names.get(x, x) for x in pat)
+    K.check(not rejected_but_ok, 'deterministic patterns are accepted', '%d patterns up to %d symbols over %d slot kinds and %d literals: no pattern that the reference accepts gets a conflict'
+            % (n, bound, len(slots), len(lits)),
+            'the pattern "%s" is prefix-deterministic under the reference slot grammar but the detector grammar gives it a conflict (e.g. a list rule that recurses on the right): '
+            'macros with it are reported as non-linear and never applied' % (spell(rejected_but_ok[0]) if rejected_but_ok else ''), where,
+            witness={'patterns': [spell(p_) for p_ in rejected_but_ok]} if rejected_but_ok else None)
+    K.check(not accepted_but_ambiguous, 'ambiguous patterns are rejected', '%d of the %d patterns have a conflict under the reference grammar; all of them have one under the detector grammar' % (nconf, n),
+            'the pattern "%s" has a conflict under the reference slot grammar but none under the detector grammar: an ambiguous macro is accepted without an error'
+            % (spell(accepted_but_ambiguous[0]) if accepted_but_ambiguous else ''), where,
+            witness={'patterns': [spell(p_) for p_ in accepted_but_ambiguous]} if accepted_but_ambiguous else None)
+    rep.extra['patterns_compared'] = n
 
 
 # ============================================================================= detector grammar (C09.h)
